@@ -40,6 +40,19 @@ def run_one(prop: str, tier: str, repo_root: str | None = None) -> int:
         err = f"analyser crashed: {type(e).__name__}: {e}"
     if ctx.deferred_errors:
         err = "; ".join(([err] if err else []) + ctx.deferred_errors)
+    if tier == "thorough" and repo_root is None and not os.environ.get("VT_NO_SELFTEST"):
+        # both-directions self-test of this property's rules on scratch-copy variants (DESIGN section 5)
+        try:
+            from .selftest import run_selftest
+
+            n, ok, failures = run_selftest(prop)
+            ctx.notes.append(f"selftest: {ok}/{n} expectations met (must-fire mutants, must-stay-silent refactors, seeded changes)")
+            ctx.count(n)
+            if failures:
+                err = "; ".join(([err] if err else []) + [f"selftest: {f}" for f in failures[:5]])
+        except Exception as e:
+            traceback.print_exc()
+            err = "; ".join(([err] if err else []) + [f"selftest crashed: {type(e).__name__}: {e}"])
     try:
         return finish(ctx, mod.EXPLANATION, mod.RULE_TEXT, err)
     except Exception as e:
